@@ -96,6 +96,7 @@ def world (p : Pipeline (ExceptT String m) A V M) (isSeries : V → Bool) : Worl
   throw cls := throw cls
   rethrow := throw "reraise"
   catchAll body handler := tryCatch body (fun _ => handler)
+  catchCls cls body handler := tryCatch body (fun e => if e == cls then handler else throw e)
 
 
 def params (a : A) (skip : Bool) : Locals (PV A V M) :=
@@ -215,6 +216,7 @@ def cworld (mu : A → Option V → ExceptT String m V) : World (StateT (List V)
   throw cls := throw cls
   rethrow := throw "reraise"
   catchAll body handler := tryCatch body (fun _ => handler)
+  catchCls cls body handler := tryCatch body (fun e => if e == cls then handler else throw e)
 
 /-- `replace_combiner(value, mutator, *args, **kwargs)` calls the mutator once, with the pipeline's arguments followed by
 the previous value, and returns what it returns: the model's `replaceCombiner`. -/
